@@ -1,0 +1,39 @@
+//go:build verif && !windows
+
+package daemon
+
+// Contracts for govc (contract-based deductive verification, see /verif/DESIGN.md).
+// Comment-only: with the tag off this file is not compiled, with it on it adds no code.
+// Ghost state (sigNotified, cmdStarted, binWrite*/binRead*, sigSent, recvSeq) is declared in
+// /verif/contracts/std/process.spec.
+
+// launch (the launcher process): start the daemon, print its pid, wait for SIGINT or daemon exit.
+//@ func launch
+//@   requires len(os.Args) >= 1 && !cmdStarted
+//@   modifies everything
+//@   attr blocking-ops select#1
+//@   attr select#1 blocking recv(finished) recv(interrupt)
+//@   ghost before call Start assert order: sigNotified
+//@   ensures handshake: cmdStarted ==> recvSeq == old(recvSeq) + 1
+//@   ensures pid.encode: cmdStarted ==> binWriteOrder == any(binary.LittleEndian) && typeIs(binWriteVal, uint32) && payload(binWriteVal, uint32) == startedPid % 4294967296
+
+//@ func launch$1
+//@   requires cmd != nil && finished != nil && finished.closes == 0
+//@   modifies everything
+
+// Launch (the caller): run the launcher to completion, decode the pid it printed.
+//@ func Launch
+//@   requires len(os.Args) >= 1
+//@   modifies everything
+//@   ensures pid.decode: err == nil ==> binReadOrder == any(binary.LittleEndian) && typeIs(binReadTarget, *uint32) && pid == *payload(binReadTarget, *uint32)
+//@   ensures fail: err != nil ==> pid == 0
+
+// Done (the daemon): SIGINT to the parent, i.e. the launcher, which is the signal the launcher waits for.
+//@ func Done
+//@   modifies sigSent, sigPid
+//@   ensures signal: err == nil ==> sigSent == os.Interrupt && sigPid == ppidOf()
+
+// schedule hook (build tag verif): no effect on program state
+//@ func verifPause
+//@   attr blocking no
+//@   modifies nothing
